@@ -1061,7 +1061,7 @@ func (w *World) getArchetypes(filter Filter) []*archetype {
 
 // Removes the archetype if it is empty, and has a relation to a dead target.
 func (w *World) cleanupArchetype(arch *archetype) {
-	if arch.Len() > 0 || !arch.node.HasRelation {
+	if arch.Len() > 0 || !arch.node.HasRelation || !arch.IsActive() {
 		return
 	}
 	target := arch.RelationTarget
